@@ -9,6 +9,7 @@ import (
 	"net/url"
 	"reflect"
 	"strings"
+	"time"
 
 	"github.com/gookit/rux"
 	"github.com/gookit/rux/pkg/handlers"
@@ -89,6 +90,34 @@ func opInt(op []any, i int) int {
 	return 0
 }
 
+// callLib calls a middleware of pkg/handlers in place, after arranging the request so that it takes the named branch.
+func callLib(c *rux.Context, name string) {
+	switch name {
+	case "favicon-hit", "favicon-miss":
+		old := c.Req.URL.Path
+		if name == "favicon-hit" {
+			c.Req.URL.Path = handlers.FavIcon
+		}
+		defer func() { c.Req.URL.Path = old }()
+		handlers.IgnoreFavIcon()(c)
+	case "basicauth-none", "basicauth-bad", "basicauth-ok":
+		c.Req.Header.Del("Authorization")
+		if name == "basicauth-bad" {
+			c.Req.SetBasicAuth("u", "wrong")
+		} else if name == "basicauth-ok" {
+			c.Req.SetBasicAuth("u", "pw")
+		}
+		defer c.Req.Header.Del("Authorization")
+		handlers.HTTPBasicAuth(map[string]string{"u": "pw"})(c)
+	case "timeout-fired":
+		handlers.Timeout(-time.Second)(c) // the deadline has passed before the handlers below start
+	case "timeout-idle":
+		handlers.Timeout(time.Hour)(c)
+	default:
+		fatal("unknown lib middleware %q", name)
+	}
+}
+
 // mkHandler turns a script into a rux handler; h is the 1-based position in the chain (0 = hook / OnError).
 func mkHandler(run **chainRun, h int, script [][]any) rux.HandlerFunc {
 	return func(c *rux.Context) {
@@ -106,6 +135,8 @@ func mkHandler(run **chainRun, h int, script [][]any) rux.HandlerFunc {
 				c.Next()
 			case "catchnext":
 				handlers.PanicsHandler()(c)
+			case "lib":
+				callLib(c, op[1].(string))
 			case "redispatch":
 				c.Req.URL.Path = "/t"
 				c.Router().HandleContext(c)
@@ -517,6 +548,9 @@ func randScript(rng *rand.Rand, allowPanic bool) [][]any {
 			ops = append(ops, []any{"httpError", 400 + rng.Intn(5), 2 + rng.Intn(4)})
 		case x < 19 && allowPanic:
 			ops = append(ops, []any{"panic"})
+		case x == 19 && rng.Intn(2) == 0:
+			ops = append(ops, []any{"lib", []string{"favicon-hit", "favicon-miss", "basicauth-none", "basicauth-bad", "basicauth-ok",
+				"timeout-fired", "timeout-idle"}[rng.Intn(7)]})
 		default:
 			ops = append(ops, []any{"in"})
 		}
